@@ -1,8 +1,113 @@
-"""/repo -> lean/ChipFiring/Generated/*.lean : tables, generated graphs and closed forms are dumped
-from the imported working tree on every run (files are rewritten only when their content changes,
-so lake's incremental build stays incremental)."""
-import os, json, subprocess, sys
+"""/repo -> lean/ChipFiring/Generated/*.lean : the literal tables, the generated graphs and the
+closed forms the library publishes are dumped from the *imported working tree* on every run, so
+that the theorems about them (Properties/C19.lean) are re-checked by the kernel against what the
+code says now.  Files are rewritten only when their content changes, so lake's incremental build
+stays incremental."""
+import os, json, subprocess, sys, ast, inspect, textwrap
 import core
+
+GEN = os.path.join(core.LEAN, "ChipFiring", "Generated")
+
+DUMP = r'''
+import sys, json, warnings, inspect
+sys.path.insert(0, %r)
+warnings.filterwarnings("ignore")
+import chipfiring
+from chipfiring import CFPlatonicSolids as PS, CFCombinatorics as CC
+out = {"solids": {}, "sources": {}}
+for nm in ("tetrahedron", "cube", "octahedron", "dodecahedron", "icosahedron"):
+    G = getattr(PS, nm)()
+    names = sorted(v.name for v in G.vertices)
+    idx = {x: i for i, x in enumerate(names)}
+    d = G.to_dict()
+    out["solids"][nm] = {"n": len(names), "edges": [[idx[a], idx[b], k] for a, b, k in d["edges"]]}
+out["table"] = PS.platonic_solid_gonality_bounds()
+for nm, f in (("complete_graph_gonality", PS.complete_graph_gonality),
+              ("complete_multipartite_gonality", CC.complete_multipartite_gonality),
+              ("parking_function_count", CC.parking_function_count)):
+    out["sources"][nm] = inspect.getsource(f)
+print(json.dumps(out))
+'''
+
+
+LAST_DUMP = None
+
+
+class Untranslatable(Exception):
+    pass
+
+
+def tr_expr(e, lists):
+    """restricted Python int/list expression -> Lean term over Int / List Int"""
+    if isinstance(e, ast.Constant) and isinstance(e.value, int) and not isinstance(e.value, bool):
+        return f"({e.value} : Int)"
+    if isinstance(e, ast.Name):
+        return e.id
+    if isinstance(e, ast.BinOp):
+        a, b = tr_expr(e.left, lists), tr_expr(e.right, lists)
+        if isinstance(e.op, ast.Add):
+            return f"({a} + {b})"
+        if isinstance(e.op, ast.Sub):
+            return f"({a} - {b})"
+        if isinstance(e.op, ast.Mult):
+            return f"({a} * {b})"
+        if isinstance(e.op, ast.Pow):
+            return f"({a} ^ ({b}).toNat)"
+    if isinstance(e, ast.Call) and isinstance(e.func, ast.Name) and len(e.args) == 1 and isinstance(e.args[0], ast.Name):
+        arg = e.args[0].id
+        if e.func.id == "sum":
+            return f"({arg}).sum"
+        if e.func.id == "len":
+            return f"(({arg}).length : Int)"
+        if e.func.id == "min":
+            return f"(pyMin {arg})"
+        if e.func.id == "max":
+            return f"(pyMax {arg})"
+    raise Untranslatable(ast.dump(e))
+
+
+def tr_test(t, lists):
+    if isinstance(t, ast.UnaryOp) and isinstance(t.op, ast.Not) and isinstance(t.operand, ast.Name) and t.operand.id in lists:
+        return f"({t.operand.id}).isEmpty = true"
+    if isinstance(t, ast.Compare) and len(t.ops) == 1:
+        a, b = tr_expr(t.left, lists), tr_expr(t.comparators[0], lists)
+        op = {ast.Lt: "<", ast.LtE: "≤", ast.Gt: ">", ast.GtE: "≥", ast.Eq: "=", ast.NotEq: "≠"}.get(type(t.ops[0]))
+        if op:
+            return f"{a} {op} {b}"
+    raise Untranslatable(ast.dump(t))
+
+
+def tr_body(stmts, lists):
+    """statements -> Lean term of type Option Int (none = raises)"""
+    if not stmts:
+        raise Untranslatable("falls off the end")
+    s, rest = stmts[0], stmts[1:]
+    if isinstance(s, ast.Expr) and isinstance(s.value, ast.Constant) and isinstance(s.value.value, str):
+        return tr_body(rest, lists)                      # docstring
+    if isinstance(s, ast.Return):
+        return f"some {tr_expr(s.value, lists)}"
+    if isinstance(s, ast.Raise):
+        return "none"
+    if isinstance(s, ast.Assign) and len(s.targets) == 1 and isinstance(s.targets[0], ast.Name):
+        return f"let {s.targets[0].id} := {tr_expr(s.value, lists)}\n  {tr_body(rest, lists)}"
+    if isinstance(s, ast.If) and not s.orelse:
+        return f"if {tr_test(s.test, lists)} then {tr_body(s.body, lists)}\n  else {tr_body(rest, lists)}"
+    if isinstance(s, ast.If):
+        return f"if {tr_test(s.test, lists)} then {tr_body(s.body, lists)}\n  else {tr_body(s.orelse, lists)}"
+    raise Untranslatable(ast.dump(s)[:200])
+
+
+def translate_function(name, src):
+    fn = ast.parse(textwrap.dedent(src)).body[0]
+    params = [a.arg for a in fn.args.args]
+    lists = {p for p in params if "size" in p or "list" in p or "partition" in p}
+    sig = " ".join(f"({p} : {'List Int' if p in lists else 'Int'})" for p in params)
+    body = tr_body(fn.body, lists)
+    return f"def {name} {sig} : Option Int :=\n  {body}\n"
+
+
+def lean_edges(es):
+    return "[" + ", ".join(f"({a}, {b}, {k})" for a, b, k in es) + "]"
 
 
 def write_if_changed(path, text):
@@ -16,4 +121,52 @@ def write_if_changed(path, text):
 
 
 def regenerate():
-    return {"files": [], "changed": []}
+    rc, out = core.sh([core.PY, "-c", DUMP % core.REPO], timeout=600)
+    note = {"files": [], "changed": [], "untranslated": []}
+    if rc != 0:
+        # the dump itself failing is reported through the theorems that need the data
+        note["dump_error"] = out[-1500:]
+        return note
+    data = json.loads(out.strip().split("\n")[-1])
+    global LAST_DUMP
+    LAST_DUMP = data
+    # ---- solids + table
+    lines = ["/- GENERATED by harness/regen.py from /repo's working tree: do not edit -/",
+             "namespace CF.Gen", ""]
+    for nm, d in data["solids"].items():
+        lines.append(f"def {nm}N : Nat := {d['n']}")
+        lines.append(f"def {nm}Edges : List (Nat × Nat × Int) := {lean_edges(d['edges'])}")
+    lines.append("")
+    lines.append("/-- `platonic_solid_gonality_bounds()`: (name, exact?, lower, upper, vertices, edges) -/")
+    rows = []
+    for nm, e in data["table"].items():
+        ex = f"some {e['exact']}" if "exact" in e else "none"
+        rows.append(f'("{nm}", ({ex} : Option Int), ({e["lower_bound"]} : Int), ({e["upper_bound"]} : Int), {e["vertices"]}, {e["edges"]})')
+    lines.append("def table : List (String × Option Int × Int × Int × Nat × Nat) := [\n  " + ",\n  ".join(rows) + "]")
+    lines += ["", "end CF.Gen", ""]
+    p = os.path.join(GEN, "Solids.lean")
+    note["files"].append("Generated/Solids.lean")
+    if write_if_changed(p, "\n".join(lines)):
+        note["changed"].append("Generated/Solids.lean")
+    # ---- closed forms
+    lines = ["/- GENERATED by harness/regen.py (restricted Python-AST -> Lean translation of the published",
+             "   closed forms, taken from /repo's working tree): do not edit -/",
+             "namespace CF.Gen", "",
+             "def pyMin : List Int → Int\n  | [] => 0\n  | x :: xs => xs.foldl min x",
+             "def pyMax : List Int → Int\n  | [] => 0\n  | x :: xs => xs.foldl max x", ""]
+    for nm, src in data["sources"].items():
+        try:
+            lines.append(translate_function(nm, src))
+        except Untranslatable as e:
+            note["untranslated"].append({"function": nm, "reason": str(e)[:300]})
+            lines.append(f"/-- `{nm}` uses syntax outside the translator's subset; the hand-written model and the\n    sampled correspondence are used instead -/\ndef {nm}_untranslated : Unit := ()\n")
+    lines += ["end CF.Gen", ""]
+    p = os.path.join(GEN, "ClosedForms.lean")
+    note["files"].append("Generated/ClosedForms.lean")
+    if write_if_changed(p, "\n".join(lines)):
+        note["changed"].append("Generated/ClosedForms.lean")
+    return note
+
+
+if __name__ == "__main__":
+    print(json.dumps(regenerate(), indent=1))
